@@ -637,6 +637,8 @@ class ToZ:
         key = show_c(e)
         if key in self.env:
             return self.env[key]
+        if key.replace(" ", "") in self.env:
+            return self.env[key.replace(" ", "")]
         k = e[0]
         if k == "num":
             return "%d" % e[1] if e[1] >= 0 else "(%d)" % e[1]
